@@ -45,5 +45,10 @@ CheckP == l <= Len(Trace) =>
   LET v == Verdict(Rec) IN
     (v.nopanic /\ v.attached /\ v.roundtrip) \/ (PrintT("VERDICT " \o ToJson(v)) /\ FALSE)
 
+\* arbitrary formatting (C03): nothing is lost; the line skeleton may differ
+CheckC03 == l <= Len(Trace) =>
+  LET v == Verdict(Rec) IN
+    (v.nopanic /\ v.attached) \/ (PrintT("VERDICT " \o ToJson(v)) /\ FALSE)
+
 Accepted == TLCGet("stats").diameter = Len(Trace) + 1
 =============================================================================
